@@ -74,7 +74,8 @@ def extract(flavour="debug", repo=REPO, verbose=True):
     drv = hashlib.sha256(open(os.path.join(VERIF, "engine", "mirfacts", "src", "main.rs"), "rb").read()).hexdigest()[:8]
     tag = "%s-%s" % (th, drv) if flavour == "debug" else "%s-%s-%s" % (th, drv, flavour)
     out = os.path.join(CACHE, "facts", tag)
-    with open(os.path.join(CACHE, "lock"), "w") as lock:
+    slot = os.environ.get("VERIF_TARGET_SLOT", "")  # calibration runs (tools/evalset.py) extract several variants in parallel, one target dir each
+    with open(os.path.join(CACHE, "lock" + slot), "w") as lock:
         fcntl.flock(lock, fcntl.LOCK_EX)
         if complete(out):
             os.utime(out)
@@ -85,7 +86,9 @@ def extract(flavour="debug", repo=REPO, verbose=True):
         shutil.rmtree(tmp, ignore_errors=True)
         shutil.rmtree(out, ignore_errors=True)
         os.makedirs(tmp)
-        target = os.path.join(CACHE, "target-" + flavour)
+        target = os.path.join(CACHE, "target-" + flavour + slot)
+        if slot and not os.path.isdir(target) and os.path.isdir(os.path.join(CACHE, "target-" + flavour)):
+            subprocess.call(["cp", "-a", os.path.join(CACHE, "target-" + flavour), target])
         # cargo's freshness cache would skip the wrapper for unchanged members: force them
         fp = os.path.join(target, "debug", ".fingerprint")
         if os.path.isdir(fp):
